@@ -84,6 +84,7 @@ type Eval struct {
 	Owned func(*ownedRef) *smt.Term
 	OwnedField func(*ownedFieldLoc) *smt.Term
 	LocalMap func(*localMap) (present, vals *smt.Term)
+	inInv  bool // evaluating a value invariant (no nested invariant facts)
 	unfold int // current unfolding depth of recursive specification functions
 	ufSeen map[*smt.Term]int
 }
@@ -840,7 +841,9 @@ func (e *Eval) index(x *spec.Index) SV {
 	}
 	switch u := v.T.Underlying().(type) {
 	case *types.Slice:
-		return e.FromVal(smt.Select(e.arr(v), smt.BVAdd(SlOff(v.Term), idx)), u.Elem())
+		el := smt.Select(e.arr(v), smt.BVAdd(SlOff(v.Term), idx))
+		e.elemInvFact(el, u.Elem())
+		return e.FromVal(el, u.Elem())
 	case *types.Array:
 		return e.FromVal(smt.Select(v.Term, idx), u.Elem())
 	case *types.Basic:
@@ -860,6 +863,24 @@ func (e *Eval) index(x *spec.Index) SV {
 	}
 	e.fail("cannot index %s", v.T)
 	return SV{}
+}
+
+// elemInvFact: a slice element read by a specification satisfies the value invariant of its type
+// (see typeinv.go); recorded as a fact for closed terms.
+func (e *Eval) elemInvFact(el *smt.Term, t types.Type) {
+	if e.Facts == nil || !el.Closed() || e.inInv {
+		return
+	}
+	n, ok := e.P.valueInvOf(t)
+	if !ok {
+		return
+	}
+	ti := e.P.TypeInvs[n.Obj().Pkg().Path()+"."+n.Obj().Name()]
+	sc := &scope{vars: map[string]SV{}}
+	ie := &Eval{P: e.P, Env: e.Env, Pkg: n.Obj().Pkg(), Heap: e.Heap, Old: e.Old, Scope: sc, TParams: e.TParams, Pos: ti.E.Pos,
+		Facts: e.Facts, Owned: e.Owned, OwnedField: e.OwnedField, LocalMap: e.LocalMap, ufSeen: e.ufSeen, unfold: e.unfold, inInv: true}
+	sc.vars[ti.Recv] = ie.FromVal(el, t)
+	e.Facts(ie.Bool(ti.E.E))
 }
 
 func (e *Eval) slice(x *spec.SliceE) SV {
